@@ -7,14 +7,14 @@ from harness.runner import BCheck
 from scenario import phasing as PH, vcf as V
 
 LEVEL = "exploration"
-LEVEL_TEXT = ("Deductive part (vcgen/z3, all inputs, over the axiomatised pysam model): PhasedVcfWriter._remove_existing_phasing clears HP and PS and every phase bit of the target samples' calls, sorts fully known genotypes (same allele multiset), leaves partially missing / absent genotypes, the calls of non-target samples and the FORMAT keys exactly as they were (contracts/vcf_py.py). "
+LEVEL_TEXT = ("Deductive part (vcgen/z3, all inputs, over the axiomatised pysam model): PhasedVcfWriter._remove_existing_phasing clears HP and PS and every phase bit of the target samples' calls, sorts fully known genotypes (same allele multiset), leaves partially missing / absent genotypes, the calls of non-target samples and the FORMAT keys exactly as they were; _set_PS writes GT = the phase in order, marks every allele after the first phased and PS = component + 1; VcfReader._extract_GT_PS_phase reports a phase exactly for phased heterozygous calls, namely the genotype in order with the PS value as block; and the ROUND TRIP _set_PS -> _extract_GT_PS_phase returns (component + 1, phase) for every heterozygous phase, as a client lemma over those two contracts (contracts/vcf_py.py). "
               "Bounded stand-in: runtime contracts on whole `whatshap phase` runs over generated multi-sample VCFs - (a) the PS and the HP output of the same "
               "run decode (with WhatsHap's own reader and with an independent decoder) to the same block and haplotype alleles, which are the ones "
               "the solver returned; (b) a phased VCF used as the only phase input is reproduced set by set; (c) re-phasing a file that already "
               "carries PS or HP phase gives exactly the phase statements obtained from the unphased file (all four tag histories), also after "
-              "unphase. Deductive obligations for the encoders/decoders are pending (string codec stays undecided in z3/cvc5).")
+              "unphase. The HP string codec (_set_HP / _extract_HP_phase: f-strings, split, int()) is not under deductive contract (string reasoning stays undecided in z3/cvc5).")
 LEVEL_NOTE = "Seeded sampling of block structures and histories, not exhaustive. Trusted: independent decoder in scenario/phasing.py."
-TECHNIQUE = "runtime contracts (decode(encode)=id, PS/HP equivalence, history independence) on run_whatshap + VcfReader over generated VCFs; bounded"
+TECHNIQUE = "contract-based deductive verification of the PS encoder/decoder pair and of _remove_existing_phasing over an axiomatised pysam model (vcgen, z3) + runtime contracts (decode(encode)=id, PS/HP equivalence, history independence) on run_whatshap + VcfReader over generated VCFs; bounded"
 D_MODULES = ["contracts.vcf_py"]
 EXPLANATION = LEVEL_TEXT
 TRUSTED_BASE = ["independent PS/HP decoder (scenario/phasing.py)"]
@@ -150,14 +150,15 @@ class Reproduce(BCheck):
     name = "C09.reproduce-phased-vcf"
     contract = ("a phased VCF used as the only phase input is reproduced: every input phase set with >= 2 heterozygous variants of the sample comes out "
                 "as one phase set with the same alleles up to swapping the whole set, named by its leftmost variant")
-    rule = "seeded scenarios with exactly one phase-input VCF (PS or HP encoded), interleaved blocks; non-trivial = some block has >= 2 variants"
+    rule = "seeded scenarios with exactly one phase-input VCF (PS or HP encoded), 1-2 samples (every fifth run: 5-8 unrelated samples), interleaved blocks; non-trivial = some block has >= 2 variants"
     budget_s = {"quick": 60, "thorough": 600}
     chunk = 10
 
     def inputs(self, tier, rng):
         for i in range(1000 if tier == "quick" else 20000):
             r = random.Random(rng.getrandbits(64))
-            g = PH.generate(r, k_files=(1, 1), main_kwargs=dict(n_samples=(1, 2), n_records=(4, 10), duplicates=0), input_tag="HP" if i % 3 == 0 else "PS")
+            # every fifth run phases 5-8 unrelated samples at once: the documented coverage cap (15) is per sample, however many samples a run has
+            g = PH.generate(r, k_files=(1, 1), main_kwargs=dict(n_samples=(5, 8) if i % 5 == 4 else (1, 2), n_records=(4, 10), duplicates=0), input_tag="HP" if i % 3 == 0 else "PS")
             yield dict(main_vcf=g["main_vcf"], phase_vcfs=g["phase_vcfs"], tag="PS" if i % 2 else "HP")
 
     def check(self, inp):
